@@ -15,6 +15,11 @@
     neither text nor children (else F-C14-1, tagged), comment text has no `--` and does not end in `-`, PI text has no
     `?>`, script/style have no children and their text does not contain `</` + their tag.  Trees outside WFTree are generated with
     small probability and only counted (void-with-content ones are evaluated and tagged F-C14-1).
+    One tag in seven is drawn from the names AROUND THE VOID SET (every name of the HTML void list, and names that are not in
+    it but appear in other "void element" tables or differ from a void name by a letter: `command keygen menuitem bgsound
+    image menu basefon hrr ...`), and a fixed family of small trees (`near_void_trees`) puts each of these names, in three
+    spellings, as a child with text, attribute, child and tail: an element that is not void keeps
+    its content and its end tag in both formats whatever its name is.
 (b) document level: random documents (token soups with raw HTML / entities / extension syntax, spliced fixture fragments,
     line-structured documents, core-grammar documents) under random extension subsets are converted with
     output_format 'html' and 'xhtml'.  Required: the two outputs are equal after normalising exactly the two spellings
@@ -98,6 +103,29 @@ ANAMES = ['id', 'class', 'href', 'title', 'alt', 'src', 'checked', 'disabled', '
 PIECES = ['&', '<', '>', '"', "'", '&amp;', '&lt;', '&gt;', '&quot;', '&#12;', '&#x1f;', '&#X1F;', '&foo;', '&copy;', '&#x;', '&;', '&#;', '&#12',
           '&amp', '&a b;', '\n', ' ', 'a', 'b', 'x y', 'é', '&ſ;', '&K;', '&AMP;', '&Lt;', ';', '#', '=', '/', '-', '?', ']]>', '<!-', '</p>', '<br>',
           '&#xg;', '&#1a;', '&#0;', '&x', 'amp;', '&&amp;', '&amp;amp;', '&#38;', '<a href="u">', "\t", '\r', '\x02', '\x03', '\U0001F600']
+# names around the void set (the reader's table H.VOID is the HTML void list as a literal, not imported from the code under test)
+NEAR_VOID = ['command', 'keygen', 'menuitem', 'bgsound', 'nextid', 'spacer', 'image', 'menu', 'nobr', 'picture', 'audio', 'video', 'object',
+             'colgroup', 'frameset', 'iframe', 'noframes', 'textarea', 'button', 'select', 'option', 'basefon', 'basefonts', 'are', 'areas',
+             'bas', 'bases', 'brr', 'cols', 'co', 'embeds', 'framee', 'fram', 'h', 'hrr', 'im', 'imgs', 'inputs', 'inpu', 'isindexx',
+             'links', 'lin', 'metas', 'met', 'params', 'para', 'sources', 'sourc', 'tracks', 'trac', 'wb', 'wbrr', 'data', 'slot', 'template']
+VOIDISH = sorted(H.VOID) + NEAR_VOID + NEAR_VOID[:9]
+
+
+def near_void_trees():
+    """deterministic well-formed trees: each name around the void set as a root and as a child, with content unless it is void"""
+    out = []
+    names = []
+    for v in sorted(H.VOID): names += [v, v.upper(), v.capitalize()]
+    for v in NEAR_VOID: names += [v] + ([v.upper(), v.capitalize()] if v in NEAR_VOID[:9] else [])
+    for nm in names:
+        void = nm.lower() in H.VOID
+        text, kids = (None, []) if void else ('Save ', [['e', 'b', [], 'now', [], ' & then']])
+        out.append(['e', 'menu', [['type', 'context', False, False]], 'm',
+                    [['e', nm, [['label', 'save', False, False]], text, kids, ' | '], ['e', 'hr', [], None, [], 'end'],
+                     ['e', nm, [['id', 'e', False, False]], None, [] if void else [['e', 'i', [], None, [], None]], None]], None])
+    return out
+
+
 NAME_RE = re.compile(r'^[A-Za-z_:À-ÖØ-öø-˿][-A-Za-z0-9_:.À-ÖØ-öø-˿·]*$')
 
 
@@ -122,6 +150,9 @@ def gen_tree(rng, depth=0, allow_nonwf=False):
         kids = [gen_tree(rng, depth + 1, allow_nonwf) for _ in range(rng.randint(0, 3))] if depth < 3 else []
         return ['n', hostile(rng) if rng.random() < 0.7 else None, kids, tail]
     tag = rng.choice(TAGS)
+    if rng.random() < 0.14:
+        tag = rng.choice(VOIDISH)
+        if rng.random() < 0.25: tag = rng.choice([tag.upper(), tag.capitalize()])
     local = tag
     if rng.random() < 0.1:
         uri = rng.choice(['http://u', 'u', 'a&b', 'a"b<c>', 'l1\nl2', '&amp;&#10;', '']) if rng.random() < 0.7 else hostile(rng, 1, 3).replace('}', '')
@@ -331,6 +362,17 @@ def _void_probe(strip):
         def extendMarkdown(self, md):
             self.probe = Probe(md)
             md.treeprocessors.register(self.probe, 'c14_void_probe', -1000)
+
+        def hook(self, md):
+            """the same on every element handed to `md.serializer` outside the final tree: md_in_html serialises the elements of a
+            `markdown="1"` container that is still in the stash (e.g. one that sits inside a footnote body) in its post-processor"""
+            orig = md.serializer
+            probe = self.probe
+
+            def ser(el):
+                probe.run(el)
+                return orig(el)
+            md.serializer = ser
     return Ext()
 
 
@@ -342,6 +384,7 @@ def in_region_void_content(src, exts):
     for fmt in ('html', 'xhtml'):
         e = _void_probe(False)
         md = markdown.Markdown(extensions=list(exts) + [e], output_format=fmt)
+        e.hook(md)
         with time_limit(20): md.convert(src)
         hits += e.probe.hits
     if not hits: return False
@@ -405,7 +448,9 @@ def check_doc(src, exts, strip_void_content=False, probes=None):
     probs = []; info = {}
     outs = {}
     for fmt in ('html', 'xhtml'):
-        md = markdown.Markdown(extensions=list(exts) + ([_void_probe(True)] if strip_void_content else []) + (probes() if probes else []), output_format=fmt)
+        vp = [_void_probe(True)] if strip_void_content else []
+        md = markdown.Markdown(extensions=list(exts) + vp + (probes() if probes else []), output_format=fmt)
+        if vp: vp[0].hook(md)
         with time_limit(20):
             outs[fmt] = md.convert(src)
     info['differ'] = outs['html'] != outs['xhtml']
@@ -423,6 +468,17 @@ def check_doc(src, exts, strip_void_content=False, probes=None):
 
 
 # ------------------------------------------------------------------------------------------------ search
+_NEAR = frozenset(NEAR_VOID)
+
+
+def _has_near_void_content(d):
+    if d[0] == 'e':
+        local = d[1]['q'].split('}', 1)[1] if isinstance(d[1], dict) else d[1]
+        if local.lower() in _NEAR and (d[3] or d[4]): return True
+    kids = d[4] if d[0] == 'e' else d[2] if d[0] == 'n' else []
+    return any(_has_near_void_content(c) for c in kids)
+
+
 def _viol(kind, inp, cfg, code, obs, req, finding=None):
     return {'input': inp, 'config': dict(cfg, kind=kind), 'observed': '[%s] %s' % (code, obs), 'required': req, 'finding': finding}
 
@@ -448,9 +504,11 @@ def search(driver, rng, n):
             viol.append(_viol('esc', s, {'function': fn}, 'esc', obs, req))
     # (a) trees
     from markdown.serializers import to_xhtml_string
-    for _ in range(2 * n):
-        allow = rng.random() < 0.04
-        d = gen_tree(rng, 0, allow)
+    fixed = near_void_trees()
+    bump('trees_near_void_fixed', len(fixed))
+    for i in range(len(fixed) + 2 * n):
+        allow = i >= len(fixed) and rng.random() < 0.04
+        d = fixed[i] if i < len(fixed) else gen_tree(rng, 0, allow)
         why = nonwf(d)
         cases += 1
         if why and why != ['void-with-content'] * len(why):
@@ -467,6 +525,7 @@ def search(driver, rng, n):
         for c in ('c', 'p', 'n'):
             if ("['%s'," % c) in repr(d): bump('trees_with_' + {'c': 'comment', 'p': 'pi', 'n': 'none_tag'}[c])
         if "{'q':" in repr(d): bump('trees_with_qname_tag')
+        if _has_near_void_content(d): bump('trees_with_near_void_name_with_content')
         for code, obs, req in probs:
             viol.append(_viol('tree', d, {}, code, obs, req, 'F-C14-1' if why else None))
         if len(samples) < 2 and len(key) > 60: samples.append({'kind': 'tree', 'tree': d, 'xhtml': key})
